@@ -123,6 +123,8 @@ type lexer struct {
 	verbatim bool // The tag being lexed is {% verbatim %}
 
 	done chan struct{} // Closed by the parser when it stops reading tokens.
+
+	readErr error // The error that cut the input short, if any.
 }
 
 // nextToken returns the next token emitted by the lexer.
@@ -139,6 +141,10 @@ func (l *lexer) nextToken() token {
 func (l *lexer) tokenize() {
 	verifEvent("lex.start", l, "")
 	defer verifEvent("lex.exit", l, "")
+	if l.readErr != nil {
+		l.errorf("unable to read template: %s", l.readErr)
+		return
+	}
 	for l.state = lexData; l.state != nil; {
 		l.state = l.state(l)
 	}
@@ -147,8 +153,8 @@ func (l *lexer) tokenize() {
 // newLexer creates a lexer, ready to begin tokenizing.
 func newLexer(input io.Reader) *lexer {
 	// TODO: lexer should use the reader.
-	i, _ := ioutil.ReadAll(input)
-	return &lexer{0, 0, 1, 0, string(i), make(chan token), nil, modeNormal, token{}, 0, 0, false, make(chan struct{})}
+	i, err := ioutil.ReadAll(input)
+	return &lexer{0, 0, 1, 0, string(i), make(chan token), nil, modeNormal, token{}, 0, 0, false, make(chan struct{}), err}
 }
 
 func (l *lexer) next() (val string) {
